@@ -3,9 +3,11 @@
 R-C12-1: in every parallel region (interpreted as in C11) each output element is written, within one barrier group, by at most
          one unit of work, and barrier groups are totally ordered by the program text: the sequence of updates applied to an
          element is a function of the code path, not of timing or of the thread count.
-R-C12-2: nothing timing-dependent can flow into a vector or coefficient table: no schedule(dynamic|guided|runtime|auto), no
-         atomic/critical, no omp_get_thread_num(); floating-point reduction results are produced only by the scalar kernels and
-         their call sites store them in scalars (stop test), never in an array element.
+R-C12-2: nothing timing-dependent can flow into a vector or coefficient table: floating-point reductions are produced only by
+         the scalar kernels, with a static schedule, and their call sites store the results in scalars (stop test), never in
+         an array element.  (A dynamic schedule, an atomic or a critical section on a loop whose iterations write disjoint
+         elements changes no result and is not reported; several updates of one element in one barrier group are R-C12-1's,
+         atomic or not.  omp_get_thread_num() is outside the model: undecided, not a violation.)
 R-C12-3: the element-wise vector kernels compute their mathematical definition element by element (exact tables).
 Not decided: the size of the re-association difference of the scalar reductions between thread counts; rounding.
 """
@@ -17,7 +19,7 @@ from gmg.symdom import SArr
 def main(tier):
     ck = report.Check("C12", tier, level="other", technique="static effect analysis (one writer per element per barrier group, fixed group order) + structural taint rules on OpenMP clauses and reduction results")
     ck.rule("R-C12-1", "each element written by at most one unit per barrier group; groups ordered by program text", floor=60)
-    ck.rule("R-C12-2", "no dynamic schedule/atomic/critical/thread-id; reduction results stay scalar", floor=10)
+    ck.rule("R-C12-2", "floating-point reductions only in the scalar kernels, statically scheduled, results stay scalar", floor=10)
     ck.rule("R-C12-3", "element-wise kernels equal their definition (exact tables)", floor=3)
     prog = eff_runs.load()
     ck.units += prog.units
@@ -46,9 +48,9 @@ def main(tier):
             if bad:
                 ck.violation("R-C12-1", "%s:%s" % (r.fn.split("(")[0], bad[0].split("#")[0]), r.site,
                              "%s: element %s of %s is written by %d units of work in barrier group %s: the order of the updates depends on the schedule" % (sk, bad[1], bad[0], bad[3], bad[2]))
-            elif dyn and dyn not in ("static",):
-                ck.violation("R-C12-1", "%s:schedule" % r.fn.split("(")[0], r.site, "%s: schedule(%s) makes the iteration-to-thread mapping timing dependent" % (sk, dyn))
             else:
+                # a non-static schedule changes which thread runs an iteration, not what the iteration writes: with one writer per
+                # element and group it cannot change a vector output (it matters only together with a reduction: R-C12-2)
                 ck.ok("R-C12-1", key, sample={"region": r.site, "elements written": len(by)} if n % 29 == 1 else None)
     # ---------------- structural rules over the whole library
     whole = ir.load()
@@ -63,11 +65,13 @@ def main(tier):
                     key = "%s @%s" % (qn, ir.locstr(node))
                     ck.instance("R-C12-2", key, nontrivial=(n_omp <= 40))
                     probs = []
-                    if node.get("dir") in ("atomic", "critical", "ordered"):
-                        probs.append("uses omp %s" % node["dir"])
+                    # atomic/critical/ordered by themselves do not make a result timing dependent; what does is several units of
+                    # work updating one floating-point location in one barrier group, which R-C12-1 reports whether or not the
+                    # updates are atomic.  A non-static schedule matters only where partial results are formed per thread.
+                    has_red = any(c.get("ck") == "reduction" for c in node.get("clauses", []))
                     for c in node.get("clauses", []):
-                        if c.get("ck") == "schedule" and c.get("kind") not in ("static",):
-                            probs.append("schedule(%s)" % c.get("kind"))
+                        if c.get("ck") == "schedule" and c.get("kind") not in ("static",) and has_red:
+                            probs.append("schedule(%s) on a reduction: the grouping of the partial sums changes from run to run at a fixed thread count" % c.get("kind"))
                         if c.get("ck") == "reduction":
                             red_fns.add(qn)
                             base = qn.split("<")[0].split("::")[-1]
@@ -78,7 +82,7 @@ def main(tier):
                     else:
                         ck.ok("R-C12-2", key)
                 if node.get("k") == "Call" and node.get("callee", "").startswith("omp_get_thread_num"):
-                    ck.fail("R-C12-2", "%s:thread-id" % qn, ir.locstr(node), "%s reads omp_get_thread_num(): a thread-id dependent value" % qn)
+                    ck.undecide("R-C12-2", "%s @%s" % (qn, ir.locstr(node)), "%s reads omp_get_thread_num(): units of work are not threads in this analysis, a thread-id dependent value cannot be decided" % qn)
     # call sites of reduction kernels: result must stay scalar
     cg = structq.CallGraph(whole)
     for rf in sorted(red_fns):
